@@ -153,7 +153,7 @@ namespace
     }
     value getVariable_group_string(runtime& runtime, value::cref left, value::cref right)
     {
-        auto grp = right.data<d_group>();
+        auto grp = left.data<d_group>();
         if (grp->is_null())
         {
             runtime.__logmsg(err::ExpectedNonNullValue(runtime.context_active().current_frame().diag_info_from_position()));
@@ -172,7 +172,7 @@ namespace
     }
     value getVariable_group_array(runtime& runtime, value::cref left, value::cref right)
     {
-        auto grp = right.data<d_group>();
+        auto grp = left.data<d_group>();
         if (grp->is_null())
         {
             runtime.__logmsg(err::ExpectedNonNullValue(runtime.context_active().current_frame().diag_info_from_position()));
@@ -203,7 +203,7 @@ namespace
     }
     value setVariable_group_array(runtime& runtime, value::cref left, value::cref right)
     {
-        auto grp = right.data<d_group>();
+        auto grp = left.data<d_group>();
         if (grp->is_null())
         {
             runtime.__logmsg(err::ExpectedNonNullValue(runtime.context_active().current_frame().diag_info_from_position()));
